@@ -437,6 +437,7 @@ def verify_unit(unit, repo, workdir, keep=False):
             with open(cpath) as f:
                 cached = json.load(f)
             cached["cache_hit"] = True
+            cached["verify_wall_s"] = cached.get("verify_wall_s", cached.get("wall_s"))
             cached["wall_s"] = time.time() - t0
             return cached
         except (OSError, ValueError):
@@ -503,6 +504,7 @@ def verify_unit(unit, repo, workdir, keep=False):
         out["wall_canary_s"] = resc["wall_s"]
     out["wall_s"] = time.time() - t0
     out["cache_hit"] = False
+    out["verify_wall_s"] = out["wall_s"]
     if not any(u.startswith("verus timed out") for u in out["undecided"]):
         try:
             os.makedirs(cdir, exist_ok=True)
